@@ -22,6 +22,7 @@ ASSUMPTIONS = [
     "window widths are integers >= 0; GammaWindow peak in [0.05, 0.98] (peak = 1 divides by zero), order 1..8",
     "'sum to 1 up to O(1/width)' is judged as |sum - 1| <= 1/width for width >= 3 (largest value on the closed forms: 0.571/width, Blackman width 3)",
     "non-negative means >= -1e-15 (numpy.blackman's end points are -1.4e-17)",
+    "for widths 0 and 1 (no area: width - 1 = 0) only length and sign are judged, for every window class",
     "for GammaWindow widths 0 and 1 only length and sign are judged; for order 1 (mode at t=0, no peak to place) only that the samples are a reversed exponential density a*exp(-a*t)",
     "'maximum falls at peak x width' = the arg-max, as a 0-based index or a 1-based sample number, lies within one sample of peak*width (the convention of the repository's own test)",
     "circshift_fourier shifts are integers (a circular shift by a fractional number of samples is not defined by the statement); a segment longer than the DFT wraps and adds onto bins (start+j) mod D",
@@ -59,7 +60,7 @@ def check_window(case):
     labels = [alias, _wclass(width), "odd" if width % 2 else "even"]
     if alias != "gamma":
         want = ref.normalised(alias, width)
-        if width:
+        if width >= 2:  # a single sample has no area (width - 1 = 0): only length and sign are judged
             tol = 1e-12 * float(np.max(np.abs(want))) + 1e-300
             err = np.abs(w - want)
             i = int(np.argmax(err))
